@@ -30,7 +30,7 @@ def flat_signals(obj):
 # ------------------------------------------------------------------ strategies (one per class)
 
 def s_mux():
-    return gens.csr_layout(max_regs=6)
+    return gens.csr_layout(max_regs=6, huge=True)
 
 
 def s_csr_decoder():
